@@ -222,6 +222,29 @@ def clause3_state(ctx, P):
                     conds.append((atom, pol))
         ok = len(exits) >= 2
     ctx.ob("C09.3 R-LOOP", gr, "drain-until-negative-or-closed", ok, "the reader loop does not drain the socket until a negative class or close (edge-triggered discipline)")
+    # readiness bits: everything the loop registers for (besides the edge-trigger flag) is dispatched as data, not as an error
+    add = P.fn("eventloop_epoll.c:eventloop_epoll_add")
+    he = P.fn("eventloop_epoll.c:handle_events")
+    ET = Q.const(P, "eventloop_epoll.c", "EPOLLET") & 0xFFFFFFFF
+    reg = None
+    for i in add.all_insts():
+        if i.op == "store":
+            t = P.term(add, i.a[1])
+            if t[0] == "field" and t[2] == "struct.epoll_event" and t[3] == "events":
+                reg = P.const_int(i.a[0])
+    errmask = None
+    for b in range(he.nblocks):
+        for (s2, atom, pol) in P.edge_conds(he, b):
+            if atom is not None and atom[0] == "cmp" and atom[3] == ("const", 0) and atom[2][0] == "op" and atom[2][1] == "and" \
+                    and atom[2][2][1][0] == "const" and Q.mentions(atom[2][2][0], lambda x: x[0] == "field" and x[3] == "events"):
+                k = atom[2][2][1][1] & 0xFFFFFFFF
+                if bin(k).count("1") > 8:
+                    errmask = k
+    okr = reg is not None and errmask is not None and ((reg & 0xFFFFFFFF) & errmask & ~ET) == 0
+    ctx.ob("C09.3 R-PAIR", add, "registered-bits-are-data-bits", okr,
+           "connections are registered for readiness bits 0x%x, of which 0x%x are treated as an ERROR by the dispatcher: input that "
+           "arrives together with such a bit (e.g. data + half-close in one readiness report) is discarded instead of processed"
+           % ((reg or 0) & 0xFFFFFFFF, ((reg or 0) & 0xFFFFFFFF) & (errmask or 0) & ~ET) if not okr else "registered bits are IN|OUT|ET only")
     ctx.floor("C09.3 R-EFFECT", 5)
 
 
@@ -285,6 +308,21 @@ def clause4_cursor(ctx, P):
         okp = c1 and c2 and guard
         ctx.ob("C09.4 R-CURSOR", g, "handout", okp,
                "get_read_ptr: out=%s advance-equals-return=%s guard(write_ptr - read_ptr >= count)=%s" % (c1, c2, guard), witness=v.witness() if not okp else None)
+    # the refill request is exactly the missing rest (count - unread): asking for more refuses legal messages that
+    # arrive behind other data in the buffer
+    for c in g.calls("fill_buffer"):
+        want = ("op", "sub", (P.term(g, c.a[1]), ("const", 0)))
+        d = A.norm(P, P.term(g, c.a[1]), H)
+        cnt_leaf = None
+        okf = False
+        if d is not None and d[1] == 0:
+            pos = [k for k, cf in d[0].items() if cf == 1]
+            neg = [k for k, cf in d[0].items() if cf == -1]
+            # count - (write_ptr - read_ptr)
+            okf = len(d[0]) == 3 and gwp in neg and grp in pos and len(pos) == 2
+        ctx.ob("C09.4 R-CURSOR", g, "refill-asks-for-missing-rest", okf,
+               "get_read_ptr asks fill_buffer for %s, expected count - unread_bytes: a message that is partly buffered is refused as "
+               "too large although it fits" % fmt_term(P.term(g, c.a[1]))[:80])
     # internal_read_until
     u = P.fn("buffered_socket.c:internal_read_until")
     ubs = ("param", 0, u.params[0]["name"])
